@@ -27,6 +27,7 @@ func init() {
 			kvOldHeadReadOnly(r)
 			kvSizeBoundaryAgreement(r)
 			kvImportPropagates(r)
+			c17Pack(r)
 		},
 	})
 }
